@@ -531,7 +531,7 @@ func main() {
 	pts := mc.PointAlphabet(maxK, R.Seed, nseed)
 	zs := mc.ZReps(R.Seed, nz)
 	if !R.Thorough() {
-		zs = []mc.Val{zs[0], zs[1], zs[2], zs[5]}
+		zs = []mc.Val{zs[0], zs[2], zs[5], zs[len(zs)-2]} // Z = 1, p-1, one seeded, and the representative stored as limbs {1,0,0,0}
 	}
 	var states []St
 	for _, p := range pts {
